@@ -3,6 +3,8 @@ import Mathlib.LinearAlgebra.Matrix.NonsingularInverse
 import Mathlib.Analysis.SpecificLimits.Basic
 import Mathlib.Analysis.SpecialFunctions.Sqrt
 import Mathlib.Analysis.Calculus.Deriv.Inv
+import Mathlib.Analysis.Calculus.Deriv.Add
+import Mathlib.Analysis.Calculus.Deriv.Mul
 import Mathlib.Analysis.Calculus.Deriv.Comp
 import Mathlib.Analysis.Calculus.Deriv.Prod
 import Mathlib.Analysis.Calculus.FDeriv.Prod
@@ -168,9 +170,9 @@ open Filter Topology
 theorem root_implicit_derivative_h (r ρ : ℝ → ℝ) (h0 r' ρ' : ℝ)
     (hr : HasDerivAt r r' (ρ h0)) (hρ : HasDerivAt ρ ρ' h0)
     (hroot : ∀ᶠ h in 𝓝 h0, r (ρ h) = h) : r' * ρ' = 1 := by
-  have hcomp : HasDerivAt (fun h => r (ρ h)) (r' * ρ') h0 := hr.comp h0 hρ
+  have hcomp : HasDerivAt (fun h => r (ρ h)) (r' * ρ') h0 := HasDerivAt.comp h0 hr hρ
   have hid : HasDerivAt (fun h => r (ρ h)) 1 h0 :=
-    (hasDerivAt_id h0).congr_of_eventuallyEq (by simpa using hroot)
+    (hasDerivAt_id h0).congr_of_eventuallyEq hroot
   exact hcomp.unique hid
 
 /-- `∂ρ/∂D`: if `r(ρ(D), D) = h` near `D₀` and `r` is differentiable at `(ρ(D₀), D₀)` with partials
@@ -180,11 +182,20 @@ theorem root_implicit_derivative_D (r : ℝ × ℝ → ℝ) (ρ : ℝ → ℝ) (
       (ρ D0, D0))
     (hρ : HasDerivAt ρ ρ' D0) (hroot : ∀ᶠ D in 𝓝 D0, r (ρ D, D) = h) : rρ * ρ' + rD = 0 := by
   have hγ : HasDerivAt (fun D => (ρ D, D)) (ρ', 1) D0 := hρ.prodMk (hasDerivAt_id D0)
-  have hcomp := hr.comp_hasDerivAt D0 hγ
+  have hcomp := HasFDerivAt.comp_hasDerivAt (f := fun D => (ρ D, D)) D0 hr hγ
   have hconst : HasDerivAt (r ∘ fun D => (ρ D, D)) 0 D0 :=
-    (hasDerivAt_const D0 h).congr_of_eventuallyEq (by simpa [Function.comp] using hroot)
+    (hasDerivAt_const D0 h).congr_of_eventuallyEq hroot
   have := hcomp.unique hconst
   simpa using this
+
+theorem partial_of_fderiv (r : ℝ × ℝ → ℝ) (x0 D0 rρ rD : ℝ)
+    (hr : HasFDerivAt r (rρ • ContinuousLinearMap.fst ℝ ℝ ℝ + rD • ContinuousLinearMap.snd ℝ ℝ ℝ)
+      (x0, D0)) : HasDerivAt (fun x => r (x, D0)) rρ x0 := by
+    have hγ : HasDerivAt (fun x : ℝ => (x, D0)) (1, 0) x0 :=
+      (hasDerivAt_id _).prodMk (hasDerivAt_const _ D0)
+    have := HasFDerivAt.comp_hasDerivAt (f := fun x : ℝ => (x, D0)) x0 hr hγ
+    simp at this
+    exact this
 
 /-- **C07 (2)** for a differentiable root `ρ(h, D)` of `r(ρ, D) = h`:
     `∂ρ/∂h = 1/∂_ρ r` and `∂ρ/∂D = −∂_D r/∂_ρ r`. -/
@@ -194,11 +205,7 @@ theorem root_implicit_derivative (r : ℝ × ℝ → ℝ) (ρ : ℝ → ℝ → 
     (hρh : HasDerivAt (fun h => ρ h D0) ρh h0) (hρD : HasDerivAt (fun D => ρ h0 D) ρD D0)
     (hrooth : ∀ᶠ h in 𝓝 h0, r (ρ h D0, D0) = h) (hrootD : ∀ᶠ D in 𝓝 D0, r (ρ h0 D, D) = h0) :
     rρ ≠ 0 ∧ ρh = 1 / rρ ∧ ρD = -rD / rρ := by
-  have hr1 : HasDerivAt (fun x => r (x, D0)) rρ (ρ h0 D0) := by
-    have hγ : HasDerivAt (fun x : ℝ => (x, D0)) (1, 0) (ρ h0 D0) :=
-      (hasDerivAt_id _).prodMk (hasDerivAt_const _ D0)
-    have := hr.comp_hasDerivAt (ρ h0 D0) hγ
-    simpa [Function.comp] using this
+  have hr1 := partial_of_fderiv r (ρ h0 D0) D0 rρ rD hr
   have e1 := root_implicit_derivative_h (fun x => r (x, D0)) (fun h => ρ h D0) h0 rρ ρh hr1 hρh hrooth
   have e2 := root_implicit_derivative_D r (fun D => ρ h0 D) D0 h0 rρ rD ρD hr hρD hrootD
   have hne : rρ ≠ 0 := by
@@ -214,11 +221,12 @@ example : ∃ (r : ℝ × ℝ → ℝ) (ρ : ℝ → ℝ → ℝ),
   refine ⟨fun p => p.1 + p.2, fun h D => h - D, ?_, by intro h D; simp⟩
   have := (hasFDerivAt_fst (𝕜 := ℝ) (E := ℝ) (F := ℝ) (p := ((0:ℝ) - 0, (0:ℝ)))).add
     (hasFDerivAt_snd (𝕜 := ℝ) (E := ℝ) (F := ℝ) (p := ((0:ℝ) - 0, (0:ℝ))))
-  simpa using this
+  simp only [one_smul]
+  exact this
 
 end implicit
 
-/-! ## 3. the additive terms: derivatives of the residuals along any curve -/
+/-! ## 3./4. the additive terms `rho1`, `rho2` -/
 section rho
 open RootSolve Filter Topology
 
@@ -263,14 +271,21 @@ theorem hasDerivAt_inv_sqrt (a : ℝ) (ha : 0 ≤ a) (ρ D : ℝ → ℝ) (t ρ'
     have := mul_nonneg ha (mul_self_nonneg (D t)); nlinarith
   have hsd : HasDerivAt (fun t => a * (D t * D t) + ρ t * ρ t)
       (a * (D' * D t + D t * D') + (ρ' * ρ t + ρ t * ρ')) t :=
-    ((hD.mul hD).const_mul a).add (hρ.mul hρ)
-  have hsq := hsd.sqrt hs.ne'
+    HasDerivAt.add (HasDerivAt.const_mul a (HasDerivAt.mul hD hD)) (HasDerivAt.mul hρ hρ)
+  have hsq := HasDerivAt.sqrt hsd hs.ne'
   have hw : 0 < Real.sqrt (a * (D t * D t) + ρ t * ρ t) := Real.sqrt_pos.2 hs
-  have hinv := (hasDerivAt_const t (1 : ℝ)).div hsq hw.ne'
-  convert hinv using 1
+  have hinv := HasDerivAt.div (hasDerivAt_const t (1 : ℝ)) hsq hw.ne'
   have hsw := Real.mul_self_sqrt hs.le
+  refine HasDerivAt.congr_deriv hinv ?_
   set w := Real.sqrt (a * (D t * D t) + ρ t * ρ t) with hwdef
   rw [← hsw]
+  field_simp
+  ring
+
+theorem hasDerivAt_inv_pos (ρ : ℝ → ℝ) (t ρ' : ℝ) (hρ : HasDerivAt ρ ρ' t) (hpos : 0 < ρ t) :
+    HasDerivAt (fun t => 1 / ρ t) (-ρ' / (ρ t * ρ t)) t := by
+  have := HasDerivAt.div (hasDerivAt_const t (1 : ℝ)) hρ hpos.ne'
+  refine HasDerivAt.congr_deriv this ?_
   field_simp
   ring
 
@@ -281,14 +296,10 @@ theorem h1_hasDerivAt_curve (ρ D : ℝ → ℝ) (t ρ' D' : ℝ)
       (dh1dρ pow15R (ρ t) (D t) * ρ' + dh1dD pow15R (ρ t) (D t) * D') t := by
   have h1' := hasDerivAt_inv_sqrt 1 zero_le_one ρ D t ρ' D' hρ hD hpos
   simp only [one_mul] at h1'
-  have hinvρ : HasDerivAt (fun t => 1 / ρ t) (-ρ' / (ρ t * ρ t)) t := by
-    have := (hasDerivAt_const t (1 : ℝ)).div hρ hpos.ne'
-    convert this using 1
-    field_simp
-    ring
-  have := (hinvρ.sub h1').const_mul (1 / 4 : ℝ)
+  have hinvρ := hasDerivAt_inv_pos ρ t ρ' hρ hpos
+  have := HasDerivAt.const_mul (1 / 4 : ℝ) (HasDerivAt.sub hinvρ h1')
   simp only [h1_real]
-  convert this using 1
+  refine HasDerivAt.congr_deriv this ?_
   rw [dh1dρ_real, dh1dD_real]
   have hs : 0 < D t * D t + ρ t * ρ t := by nlinarith [mul_self_nonneg (D t)]
   have hw : 0 < Real.sqrt (D t * D t + ρ t * ρ t) := Real.sqrt_pos.2 hs
@@ -303,24 +314,489 @@ theorem h2_hasDerivAt_curve (ρ D : ℝ → ℝ) (t ρ' D' : ℝ)
   have ha := hasDerivAt_inv_sqrt 1 zero_le_one ρ D t ρ' D' hρ hD hpos
   simp only [one_mul] at ha
   have hb := hasDerivAt_inv_sqrt 2 zero_le_two ρ D t ρ' D' hρ hD hpos
-  have hinvρ : HasDerivAt (fun t => 1 / ρ t) (-ρ' / (ρ t * ρ t)) t := by
-    have := (hasDerivAt_const t (1 : ℝ)).div hρ hpos.ne'
-    convert this using 1
-    field_simp
-    ring
-  have := ((hinvρ.const_mul (1 / 8 : ℝ)).sub (ha.const_mul (1 / 4 : ℝ))).add (hb.const_mul (1 / 8 : ℝ))
-  simp only [h2_real]
+  have hinvρ := hasDerivAt_inv_pos ρ t ρ' hρ hpos
+  have := HasDerivAt.add (HasDerivAt.sub (HasDerivAt.const_mul (1 / 8 : ℝ) hinvρ)
+    (HasDerivAt.const_mul (1 / 4 : ℝ) ha)) (HasDerivAt.const_mul (1 / 8 : ℝ) hb)
   have hs1 : 0 < D t * D t + ρ t * ρ t := by nlinarith [mul_self_nonneg (D t)]
   have hs2 : 0 < 2 * (D t * D t) + ρ t * ρ t := by nlinarith [mul_self_nonneg (D t)]
   have hw1 : 0 < Real.sqrt (D t * D t + ρ t * ρ t) := Real.sqrt_pos.2 hs1
   have hw2 : 0 < Real.sqrt (2 * (D t * D t) + ρ t * ρ t) := Real.sqrt_pos.2 hs2
-  convert this using 1
-  · funext x
-    ring
-  · rw [dh2dρ_real, dh2dD_real]
+  have hfun : (fun t => h2 Real.sqrt (ρ t) (D t)) =
+      fun t => 1 / 8 * (1 / ρ t) - 1 / 4 * (1 / Real.sqrt (D t * D t + ρ t * ρ t))
+        + 1 / 8 * (1 / Real.sqrt (2 * (D t * D t) + ρ t * ρ t)) := by
+    funext x; rw [h2_real]; ring
+  rw [hfun]
+  refine HasDerivAt.congr_deriv this ?_
+  rw [dh2dρ_real, dh2dD_real]
+  field_simp
+  ring
+
+/-- `∂h1/∂ρ < 0`: the residual is strictly monotone in `ρ`, the root is non-degenerate -/
+theorem dh1dρ_neg (ρ D : ℝ) (hρ : 0 < ρ) (hD : D ≠ 0) : dh1dρ pow15R ρ D < 0 := by
+  rw [dh1dρ_real]
+  have hD2 : 0 < D * D := mul_self_pos.2 hD
+  have hs : 0 < D * D + ρ * ρ := by nlinarith
+  have hw : 0 < Real.sqrt (D * D + ρ * ρ) := Real.sqrt_pos.2 hs
+  have hwρ : ρ < Real.sqrt (D * D + ρ * ρ) := by
+    rw [Real.lt_sqrt hρ.le]; nlinarith
+  have : ρ / ((D * D + ρ * ρ) * Real.sqrt (D * D + ρ * ρ)) < 1 / (ρ * ρ) := by
+    rw [div_lt_div_iff₀ (by positivity) (by positivity)]
+    nlinarith [mul_pos hρ hρ, mul_pos hD2 hw]
+  linarith
+
+/-- the two implicit-function identities for a root branch of `ev·h1(ρ, D) = h` -/
+theorem rho1_root_identities (ev : ℝ) (ρ : ℝ → ℝ → ℝ) (h0 D0 ρh ρD : ℝ) (hpos : 0 < ρ h0 D0)
+    (hρh : HasDerivAt (fun h => ρ h D0) ρh h0) (hρD : HasDerivAt (fun D => ρ h0 D) ρD D0)
+    (hrooth : ∀ᶠ h in 𝓝 h0, ev * h1 Real.sqrt (ρ h D0) D0 = h)
+    (hrootD : ∀ᶠ D in 𝓝 D0, ev * h1 Real.sqrt (ρ h0 D) D = h0) :
+    ev * (dh1dρ pow15R (ρ h0 D0) D0 * ρh) = 1 ∧
+    ev * (dh1dρ pow15R (ρ h0 D0) D0 * ρD + dh1dD pow15R (ρ h0 D0) D0) = 0 := by
+  constructor
+  · have hc := HasDerivAt.const_mul ev
+      (h1_hasDerivAt_curve (fun h => ρ h D0) (fun _ => D0) h0 ρh 0 hρh (hasDerivAt_const h0 D0) hpos)
+    have hid : HasDerivAt (fun h => ev * h1 Real.sqrt (ρ h D0) D0) 1 h0 :=
+      (hasDerivAt_id h0).congr_of_eventuallyEq hrooth
+    have := hc.unique hid
+    simpa using this
+  · have hc := HasDerivAt.const_mul ev
+      (h1_hasDerivAt_curve (fun D => ρ h0 D) (fun D => D) D0 ρD 1 hρD (hasDerivAt_id D0) hpos)
+    have hconst : HasDerivAt (fun D => ev * h1 Real.sqrt (ρ h0 D) D) 0 D0 :=
+      (hasDerivAt_const D0 h0).congr_of_eventuallyEq hrootD
+    have := hc.unique hconst
+    simpa using this
+
+/-- branch form: for ANY root branch `ρ(h_ev, D)` of `ev·h1(ρ, D) = h_ev` that is differentiable in each
+    argument, `rho1BackwardTrue` returns `(g·∂ρ/∂h_ev, g·∂ρ/∂D)`.  (Existence of such a branch is the
+    implicit function theorem, `∂_ρ h1 < 0` by `dh1dρ_neg`; satisfiability of the curve form below
+    is shown by an explicit example.) -/
+theorem rho1_backward_true_correct_branch (ev : ℝ) (ρ : ℝ → ℝ → ℝ) (h0 D0 ρh ρD g : ℝ)
+    (hD0 : D0 ≠ 0) (hpos : 0 < ρ h0 D0)
+    (hρh : HasDerivAt (fun h => ρ h D0) ρh h0) (hρD : HasDerivAt (fun D => ρ h0 D) ρD D0)
+    (hrooth : ∀ᶠ h in 𝓝 h0, ev * h1 Real.sqrt (ρ h D0) D0 = h)
+    (hrootD : ∀ᶠ D in 𝓝 D0, ev * h1 Real.sqrt (ρ h0 D) D = h0) :
+    rho1BackwardTrue pow15R ev (ρ h0 D0) D0 g = (g * ρh, g * ρD) := by
+  obtain ⟨e1, e2⟩ := rho1_root_identities ev ρ h0 D0 ρh ρD hpos hρh hρD hrooth hrootD
+  set r := ρ h0 D0 with hr
+  have hev : ev ≠ 0 := by rintro rfl; simp at e1
+  have ha : dh1dρ pow15R r D0 ≠ 0 := (dh1dρ_neg r D0 hpos hD0).ne
+  have hs : 0 < D0 * D0 + r * r := by nlinarith [mul_self_nonneg D0]
+  have hw : 0 < Real.sqrt (D0 * D0 + r * r) := Real.sqrt_pos.2 hs
+  have e2' : dh1dρ pow15R r D0 * ρD + dh1dD pow15R r D0 = 0 := by
+    rcases mul_eq_zero.1 e2 with h | h
+    · exact absurd h hev
+    · exact h
+  have hcomp1 : (rho1BackwardTrue pow15R ev r D0 g).1 = g / (dh1dρ pow15R r D0 * ev) := rfl
+  have hcomp2 : (rho1BackwardTrue pow15R ev r D0 g).2 =
+      g / (pow15R (D0 * D0 + r * r) / (r * r) / D0 - r / D0) := rfl
+  refine Prod.ext ?_ ?_
+  · rw [hcomp1]
+    show _ = g * ρh
+    field_simp
+    linear_combination (-g) * e1
+  · rw [hcomp2]
+    show _ = g * ρD
+    rw [dh1dρ_real, dh1dD_real] at e2'
+    have hne : dh1dρ pow15R r D0 ≠ 0 := ha
+    rw [dh1dρ_real] at hne
+    unfold pow15R
+    set X := (D0 * D0 + r * r) * Real.sqrt (D0 * D0 + r * r) with hX
+    have hXpos : 0 < X := mul_pos hs hw
+    have hXr : X - r * r * r ≠ 0 := by
+      intro h
+      apply hne
+      have hXe : X = r * r * r := by linarith
+      rw [hXe]
+      field_simp
+      ring
+    have key : (r * r * r - X) * ρD + D0 * (r * r) = 0 := by
+      field_simp at e2'
+      linarith
+    have hden : X / (r * r) / D0 - r / D0 = (X - r * r * r) / (r * r * D0) := by
+      field_simp
+    rw [hden, div_div_eq_mul_div, div_eq_iff hXr]
+    linear_combination g * key
+
+/-- the same for `ev·h2(ρ, D) = h` -/
+theorem rho2_root_identities (ev : ℝ) (ρ : ℝ → ℝ → ℝ) (h0 D0 ρh ρD : ℝ) (hpos : 0 < ρ h0 D0)
+    (hρh : HasDerivAt (fun h => ρ h D0) ρh h0) (hρD : HasDerivAt (fun D => ρ h0 D) ρD D0)
+    (hrooth : ∀ᶠ h in 𝓝 h0, ev * h2 Real.sqrt (ρ h D0) D0 = h)
+    (hrootD : ∀ᶠ D in 𝓝 D0, ev * h2 Real.sqrt (ρ h0 D) D = h0) :
+    ev * (dh2dρ pow15R (ρ h0 D0) D0 * ρh) = 1 ∧
+    ev * (dh2dρ pow15R (ρ h0 D0) D0 * ρD + dh2dD pow15R (ρ h0 D0) D0) = 0 := by
+  constructor
+  · have hc := HasDerivAt.const_mul ev
+      (h2_hasDerivAt_curve (fun h => ρ h D0) (fun _ => D0) h0 ρh 0 hρh (hasDerivAt_const h0 D0) hpos)
+    have hid : HasDerivAt (fun h => ev * h2 Real.sqrt (ρ h D0) D0) 1 h0 :=
+      (hasDerivAt_id h0).congr_of_eventuallyEq hrooth
+    have := hc.unique hid
+    simpa using this
+  · have hc := HasDerivAt.const_mul ev
+      (h2_hasDerivAt_curve (fun D => ρ h0 D) (fun D => D) D0 ρD 1 hρD (hasDerivAt_id D0) hpos)
+    have hconst : HasDerivAt (fun D => ev * h2 Real.sqrt (ρ h0 D) D) 0 D0 :=
+      (hasDerivAt_const D0 h0).congr_of_eventuallyEq hrootD
+    have := hc.unique hconst
+    simpa using this
+
+/-- branch form for `rho2` -/
+theorem rho2_backward_true_correct_branch (ev : ℝ) (ρ : ℝ → ℝ → ℝ) (h0 D0 ρh ρD g : ℝ)
+    (hpos : 0 < ρ h0 D0)
+    (hρh : HasDerivAt (fun h => ρ h D0) ρh h0) (hρD : HasDerivAt (fun D => ρ h0 D) ρD D0)
+    (hrooth : ∀ᶠ h in 𝓝 h0, ev * h2 Real.sqrt (ρ h D0) D0 = h)
+    (hrootD : ∀ᶠ D in 𝓝 D0, ev * h2 Real.sqrt (ρ h0 D) D = h0) :
+    rho2BackwardTrue pow15R ev (ρ h0 D0) D0 g = (g * ρh, g * ρD) := by
+  obtain ⟨e1, e2⟩ := rho2_root_identities ev ρ h0 D0 ρh ρD hpos hρh hρD hrooth hrootD
+  set r := ρ h0 D0 with hr
+  have hev : ev ≠ 0 := by rintro rfl; simp at e1
+  have ha : dh2dρ pow15R r D0 ≠ 0 := by
+    intro h; rw [h] at e1; simp at e1
+  have e2' : dh2dρ pow15R r D0 * ρD + dh2dD pow15R r D0 = 0 := by
+    rcases mul_eq_zero.1 e2 with h | h
+    · exact absurd h hev
+    · exact h
+  have hcomp1 : (rho2BackwardTrue pow15R ev r D0 g).1 = g / (dh2dρ pow15R r D0 * ev) := rfl
+  have hcomp2 : (rho2BackwardTrue pow15R ev r D0 g).2 =
+      -(dh2dD pow15R r D0) / dh2dρ pow15R r D0 * g := rfl
+  refine Prod.ext ?_ ?_
+  · rw [hcomp1]
+    show _ = g * ρh
+    field_simp
+    linear_combination (-g) * e1
+  · rw [hcomp2]
+    show _ = g * ρD
+    field_simp
+    linear_combination (-g) * e2'
+
+/-- what the code returns instead: products with the true values are `g²` -/
+theorem rho1_code_times_true (pow15 : ℝ → ℝ) (ev ρ D g : ℝ)
+    (h1 : 0.25 * (ρ / pow15 (D * D + ρ * ρ) - 1.0 / (ρ * ρ)) * ev ≠ 0)
+    (h2 : pow15 (D * D + ρ * ρ) / (ρ * ρ) / D - ρ / D ≠ 0) :
+    (rho1BackwardCode pow15 ev ρ D g).1 * (rho1BackwardTrue pow15 ev ρ D g).1 = g * g ∧
+    (rho1BackwardCode pow15 ev ρ D g).2 * (rho1BackwardTrue pow15 ev ρ D g).2 = g * g := by
+  have key : ∀ a c : ℝ, a * ev ≠ 0 → c ≠ 0 →
+      (a * g * ev) * (g / (a * ev)) = g * g ∧ (c * g) * (g / c) = g * g := by
+    intro a c ha hc
+    have ha' : a ≠ 0 := left_ne_zero_of_mul ha
+    have hev : ev ≠ 0 := right_ne_zero_of_mul ha
+    constructor <;> field_simp
+  exact key _ _ h1 h2
+
+/-- the same for `rho2` -/
+theorem rho2_code_times_true (pow15 : ℝ → ℝ) (ev ρ D g : ℝ)
+    (h1 : dh2dρ pow15 ρ D * ev ≠ 0) (h2 : dh2dD pow15 ρ D ≠ 0) :
+    (rho2BackwardCode pow15 ev ρ D g).1 * (rho2BackwardTrue pow15 ev ρ D g).1 = g * g ∧
+    (rho2BackwardCode pow15 ev ρ D g).2 * (rho2BackwardTrue pow15 ev ρ D g).2 = g * g := by
+  have ha : dh2dρ pow15 ρ D ≠ 0 := left_ne_zero_of_mul h1
+  have hev : ev ≠ 0 := right_ne_zero_of_mul h1
+  have c1 : (rho2BackwardCode pow15 ev ρ D g).1 = dh2dρ pow15 ρ D * g * ev := rfl
+  have c2 : (rho2BackwardCode pow15 ev ρ D g).2 = -(dh2dρ pow15 ρ D) / dh2dD pow15 ρ D * g := rfl
+  have t1 : (rho2BackwardTrue pow15 ev ρ D g).1 = g / (dh2dρ pow15 ρ D * ev) := rfl
+  have t2 : (rho2BackwardTrue pow15 ev ρ D g).2 = -(dh2dD pow15 ρ D) / dh2dρ pow15 ρ D * g := rfl
+  rw [c1, c2, t1, t2]
+  constructor
+  · field_simp
+  · field_simp
+
+theorem sqrt25 : Real.sqrt 25 = 5 := by
+  rw [show (25 : ℝ) = 5 ^ 2 by norm_num]; exact Real.sqrt_sq (by norm_num)
+
+theorem pow15R_25 : pow15R 25 = 125 := by unfold pow15R; rw [sqrt25]; norm_num
+
+/-- values of the code's and the true backward of `rho1` at `ρ = 3, D = 4, g = 1, ev = 27.21` -/
+theorem rho1_values :
+    rho1BackwardCode pow15R (2721 / 100) 3 4 1 = (-(49 * 2721) / 225000, 49 / 18) ∧
+    rho1BackwardTrue pow15R (2721 / 100) 3 4 1 = (-225000 / (49 * 2721), 18 / 49) := by
+  have h : (4 : ℝ) * 4 + 3 * 3 = 25 := by norm_num
+  constructor
+  · simp only [rho1BackwardCode, h, pow15R_25]; norm_num
+  · simp only [rho1BackwardTrue, h, pow15R_25]; norm_num
+
+theorem sqrt41_gt : 6 < Real.sqrt 41 := by
+  rw [Real.lt_sqrt (by norm_num)]; norm_num
+
+theorem dh2dρ_3_4 : dh2dρ pow15R 3 4 = -1 / 72 + 3 / 500 - 3 / (328 * Real.sqrt 41) := by
+  rw [dh2dρ_real]
+  have h1 : (4 : ℝ) * 4 + 3 * 3 = 25 := by norm_num
+  have h2 : (2 : ℝ) * (4 * 4) + 3 * 3 = 41 := by norm_num
+  rw [h1, h2, sqrt25]
+  have : 0 < Real.sqrt 41 := by linarith [sqrt41_gt]
+  field_simp
+  ring
+
+theorem dh2dρ_3_4_bounds : -1 / 100 < dh2dρ pow15R 3 4 ∧ dh2dρ pow15R 3 4 < 0 := by
+  rw [dh2dρ_3_4]
+  have h6 := sqrt41_gt
+  have hpos : 0 < 3 / (328 * Real.sqrt 41) := by positivity
+  have hlt : 3 / (328 * Real.sqrt 41) < 3 / (328 * 6) := by
+    apply div_lt_div_of_pos_left (by norm_num) (by norm_num)
+    linarith
+  constructor
+  · have : (3 : ℝ) / (328 * 6) < 2 / 1000 := by norm_num
+    linarith
+  · linarith
+
+/-- **C07 (4), finding F6**: at `ρ = 3, D = 4, g = 1, ev = 27.21` the tuple returned by the code's
+    `additive_term_rho1.backward` differs from the true derivatives in both components, and the
+    first component of `additive_term_rho2.backward` differs as well; in each case code × true = 1:
+    the code returns the reciprocals (`∂h_ev/∂ρ`, `dD/dρ|_h`) of what autograd needs. -/
+theorem rho_backward_code_is_reciprocal_counterexample :
+    (rho1BackwardCode pow15R (2721 / 100) 3 4 1).1 ≠ (rho1BackwardTrue pow15R (2721 / 100) 3 4 1).1 ∧
+    (rho1BackwardCode pow15R (2721 / 100) 3 4 1).2 ≠ (rho1BackwardTrue pow15R (2721 / 100) 3 4 1).2 ∧
+    (rho1BackwardCode pow15R (2721 / 100) 3 4 1).1 * (rho1BackwardTrue pow15R (2721 / 100) 3 4 1).1 = 1 ∧
+    (rho1BackwardCode pow15R (2721 / 100) 3 4 1).2 * (rho1BackwardTrue pow15R (2721 / 100) 3 4 1).2 = 1 ∧
+    (rho2BackwardCode pow15R (2721 / 100) 3 4 1).1 ≠ (rho2BackwardTrue pow15R (2721 / 100) 3 4 1).1 ∧
+    (rho2BackwardCode pow15R (2721 / 100) 3 4 1).1 * (rho2BackwardTrue pow15R (2721 / 100) 3 4 1).1 = 1 := by
+  obtain ⟨hc, ht⟩ := rho1_values
+  obtain ⟨hlo, hhi⟩ := dh2dρ_3_4_bounds
+  have c1 : (rho2BackwardCode pow15R (2721 / 100) 3 4 1).1 = dh2dρ pow15R 3 4 * 1 * (2721 / 100) := rfl
+  have t1 : (rho2BackwardTrue pow15R (2721 / 100) 3 4 1).1 = 1 / (dh2dρ pow15R 3 4 * (2721 / 100)) := rfl
+  set a := dh2dρ pow15R 3 4 with ha
+  have hx0 : a * (2721 / 100) < 0 := by nlinarith
+  have hx1 : -1 < a * (2721 / 100) := by nlinarith
+  refine ⟨?_, ?_, ?_, ?_, ?_, ?_⟩
+  · rw [hc, ht]; norm_num
+  · rw [hc, ht]; norm_num
+  · rw [hc, ht]; norm_num
+  · rw [hc, ht]; norm_num
+  · rw [c1, t1]
+    intro h
+    have hne : a * (2721 / 100) ≠ 0 := hx0.ne
+    rw [mul_one, eq_div_iff hne] at h
+    nlinarith
+  · rw [c1, t1, mul_one]
+    exact mul_one_div_cancel hx0.ne
+
+/-- the forward's variable `d = 1/(2ρ)` and the backward's variable `ρ` describe the same equation -/
+theorem residual_forms_agree (D d : ℝ) (hd : 0 < d) :
+    hspOfD Real.sqrt D d = h1 Real.sqrt (0.5 / d) D := by
+  unfold hspOfD h1
+  have h4 : (4.0 : ℝ) * (D * D) + 1.0 / (d * d) = 2 ^ 2 * (D * D + 0.5 / d * (0.5 / d)) := by
+    norm_num; field_simp; ring
+  rw [h4, Real.sqrt_mul (by norm_num), Real.sqrt_sq (by norm_num)]
+  have hs : 0 < D * D + 0.5 / d * (0.5 / d) := by
+    have : 0 < (0.5 : ℝ) / d := by positivity
+    nlinarith [mul_self_nonneg D]
+  have hw : 0 < Real.sqrt (D * D + 0.5 / d * (0.5 / d)) := Real.sqrt_pos.2 hs
+  norm_num
+  field_simp
+  ring
+
+theorem residual_forms_agree2 (D q : ℝ) (hq : 0 < q) :
+    hppOfQ Real.sqrt D q = h2 Real.sqrt (0.5 / q) D := by
+  unfold hppOfQ h2
+  have h4 : (4.0 : ℝ) * (D * D) + 1.0 / (q * q) = 2 ^ 2 * (D * D + 0.5 / q * (0.5 / q)) := by
+    norm_num; field_simp; ring
+  have h8 : (8.0 : ℝ) * (D * D) + 1.0 / (q * q) = 2 ^ 2 * (2.0 * (D * D) + 0.5 / q * (0.5 / q)) := by
+    norm_num; field_simp; ring
+  rw [h4, h8, Real.sqrt_mul (by norm_num), Real.sqrt_mul (by norm_num), Real.sqrt_sq (by norm_num)]
+  have hp : 0 < (0.5 : ℝ) / q := by positivity
+  have hs1 : 0 < D * D + 0.5 / q * (0.5 / q) := by nlinarith [mul_self_nonneg D]
+  have hs2 : 0 < 2.0 * (D * D) + 0.5 / q * (0.5 / q) := by
+    have : (0:ℝ) ≤ 2.0 * (D * D) := by have := mul_self_nonneg D; norm_num; linarith
+    nlinarith
+  have hw1 : 0 < Real.sqrt (D * D + 0.5 / q * (0.5 / q)) := Real.sqrt_pos.2 hs1
+  have hw2 : 0 < Real.sqrt (2.0 * (D * D) + 0.5 / q * (0.5 / q)) := Real.sqrt_pos.2 hs2
+  norm_num
+  field_simp
+  ring
+
+/-- `rho1BackwardTrue` in terms of the partial derivatives of the residual -/
+theorem rho1_true_eq (ev r D g : ℝ) (hr : 0 < r) (hD : D ≠ 0) :
+    rho1BackwardTrue pow15R ev r D g =
+      (g / (dh1dρ pow15R r D * ev), -(dh1dD pow15R r D) / dh1dρ pow15R r D * g) := by
+  have hne : dh1dρ pow15R r D ≠ 0 := (dh1dρ_neg r D hr hD).ne
+  have hs : 0 < D * D + r * r := by nlinarith [mul_self_nonneg D]
+  have hw : 0 < Real.sqrt (D * D + r * r) := Real.sqrt_pos.2 hs
+  have hcomp2 : (rho1BackwardTrue pow15R ev r D g).2 =
+      g / (pow15R (D * D + r * r) / (r * r) / D - r / D) := rfl
+  refine Prod.ext rfl ?_
+  rw [hcomp2]
+  show _ = -(dh1dD pow15R r D) / dh1dρ pow15R r D * g
+  rw [dh1dρ_real] at hne ⊢
+  rw [dh1dD_real]
+  unfold pow15R
+  set X := (D * D + r * r) * Real.sqrt (D * D + r * r) with hX
+  have hXpos : 0 < X := mul_pos hs hw
+  have hXr : X - r * r * r ≠ 0 := by
+    intro h
+    apply hne
+    have hXe : X = r * r * r := by linarith
+    rw [hXe]
     field_simp
     ring
+  have hXr' : r * r * r - X ≠ 0 := by intro h; apply hXr; linarith
+  have hden : X / (r * r) / D - r / D = (X - r * r * r) / (r * r * D) := by
+    field_simp
+  have hnum : (1 / 4 * (r / X - 1 / (r * r))) = -(X - r * r * r) / (4 * X * (r * r)) := by
+    field_simp
+    ring
+  rw [hden, hnum]
+  clear_value X
+  field_simp
+
+/-- **C07 (3)** total-differential form: along ANY differentiable curve `(ρ(t), D(t), h(t))` on the
+    solution set `ev·h1(ρ, D) = h`, `g·ρ' = (∂L/∂h)·h' + (∂L/∂D)·D'` with the two numbers returned by
+    `rho1BackwardTrue` — i.e. they are `g·∂ρ/∂h_ev` and `g·∂ρ/∂D`. -/
+theorem rho1_backward_true_correct_curve (ev : ℝ) (ρ D h : ℝ → ℝ) (t ρ' D' h' g : ℝ) (hev : ev ≠ 0)
+    (hpos : 0 < ρ t) (hD0 : D t ≠ 0)
+    (hρ : HasDerivAt ρ ρ' t) (hD : HasDerivAt D D' t) (hh : HasDerivAt h h' t)
+    (hroot : ∀ᶠ s in 𝓝 t, ev * h1 Real.sqrt (ρ s) (D s) = h s) :
+    (rho1BackwardTrue pow15R ev (ρ t) (D t) g).1 * h' +
+      (rho1BackwardTrue pow15R ev (ρ t) (D t) g).2 * D' = g * ρ' := by
+  have hc := HasDerivAt.const_mul ev (h1_hasDerivAt_curve ρ D t ρ' D' hρ hD hpos)
+  have e := hc.unique (hh.congr_of_eventuallyEq hroot)
+  rw [rho1_true_eq ev (ρ t) (D t) g hpos hD0]
+  have hne : dh1dρ pow15R (ρ t) (D t) ≠ 0 := (dh1dρ_neg (ρ t) (D t) hpos hD0).ne
+  simp only
+  rw [← e]
+  field_simp
+  ring
+
+/-- the same for `rho2`; `∂h2/∂ρ ≠ 0` is a hypothesis here (non-degenerate root) -/
+theorem rho2_backward_true_correct_curve (ev : ℝ) (ρ D h : ℝ → ℝ) (t ρ' D' h' g : ℝ) (hev : ev ≠ 0)
+    (hpos : 0 < ρ t) (hne : dh2dρ pow15R (ρ t) (D t) ≠ 0)
+    (hρ : HasDerivAt ρ ρ' t) (hD : HasDerivAt D D' t) (hh : HasDerivAt h h' t)
+    (hroot : ∀ᶠ s in 𝓝 t, ev * h2 Real.sqrt (ρ s) (D s) = h s) :
+    (rho2BackwardTrue pow15R ev (ρ t) (D t) g).1 * h' +
+      (rho2BackwardTrue pow15R ev (ρ t) (D t) g).2 * D' = g * ρ' := by
+  have hc := HasDerivAt.const_mul ev (h2_hasDerivAt_curve ρ D t ρ' D' hρ hD hpos)
+  have e := hc.unique (hh.congr_of_eventuallyEq hroot)
+  have hcomp1 : (rho2BackwardTrue pow15R ev (ρ t) (D t) g).1 = g / (dh2dρ pow15R (ρ t) (D t) * ev) := rfl
+  have hcomp2 : (rho2BackwardTrue pow15R ev (ρ t) (D t) g).2 =
+      -(dh2dD pow15R (ρ t) (D t)) / dh2dρ pow15R (ρ t) (D t) * g := rfl
+  rw [hcomp1, hcomp2, ← e]
+  field_simp
+  ring
+
+/-- non-vacuity: the curve `ρ(t) = 3 + t`, `D(t) = 4 + 2t`, `h(t) = ev·h1(ρ(t), D(t))` at `t = 0` -/
+example : ∃ (ρ D h : ℝ → ℝ) (ρ' D' h' : ℝ),
+    0 < ρ 0 ∧ D 0 ≠ 0 ∧ HasDerivAt ρ ρ' 0 ∧ HasDerivAt D D' 0 ∧ HasDerivAt h h' 0 ∧ ρ' ≠ 0 ∧ D' ≠ 0 ∧
+    ∀ᶠ s in 𝓝 (0 : ℝ), (2721 / 100 : ℝ) * h1 Real.sqrt (ρ s) (D s) = h s := by
+  have hρ : HasDerivAt (fun t : ℝ => 3 + t) 1 0 := (hasDerivAt_id (0 : ℝ)).const_add 3
+  have hD : HasDerivAt (fun t : ℝ => 4 + 2 * t) 2 0 := by
+    simpa using ((hasDerivAt_id (0 : ℝ)).const_mul 2).const_add 4
+  have hpos : 0 < (fun t : ℝ => 3 + t) 0 := by norm_num
+  refine ⟨fun t => 3 + t, fun t => 4 + 2 * t,
+    fun t => (2721 / 100 : ℝ) * h1 Real.sqrt (3 + t) (4 + 2 * t), 1, 2, _,
+    by norm_num, by norm_num, hρ, hD,
+    HasDerivAt.const_mul _ (h1_hasDerivAt_curve _ _ 0 1 2 hρ hD hpos), one_ne_zero, two_ne_zero,
+    Filter.Eventually.of_forall fun s => rfl⟩
+
+/-- **C07 (3)** `rho_backward_true_correct`: both repaired backward formulas are the
+    vector–Jacobian products of the respective root, in total-differential form. -/
+theorem rho_backward_true_correct (ev : ℝ) (hev : ev ≠ 0) (ρ D h : ℝ → ℝ) (t ρ' D' h' g : ℝ)
+    (hpos : 0 < ρ t) (hρ : HasDerivAt ρ ρ' t) (hD : HasDerivAt D D' t) (hh : HasDerivAt h h' t) :
+    ((D t ≠ 0) → (∀ᶠ s in 𝓝 t, ev * h1 Real.sqrt (ρ s) (D s) = h s) →
+      (rho1BackwardTrue pow15R ev (ρ t) (D t) g).1 * h' +
+        (rho1BackwardTrue pow15R ev (ρ t) (D t) g).2 * D' = g * ρ') ∧
+    ((dh2dρ pow15R (ρ t) (D t) ≠ 0) → (∀ᶠ s in 𝓝 t, ev * h2 Real.sqrt (ρ s) (D s) = h s) →
+      (rho2BackwardTrue pow15R ev (ρ t) (D t) g).1 * h' +
+        (rho2BackwardTrue pow15R ev (ρ t) (D t) g).2 * D' = g * ρ') :=
+  ⟨fun hD0 hroot => rho1_backward_true_correct_curve ev ρ D h t ρ' D' h' g hev hpos hD0 hρ hD hh hroot,
+   fun hne hroot => rho2_backward_true_correct_curve ev ρ D h t ρ' D' h' g hev hpos hne hρ hD hh hroot⟩
+
+/-- non-vacuity of the `rho2` non-degeneracy hypothesis and of `rho1_code_times_true`'s -/
+example : dh2dρ pow15R 3 4 ≠ 0 := dh2dρ_3_4_bounds.2.ne
+example : (rho1BackwardCode pow15R (2721 / 100) 3 4 1).1 ≠ 0 ∧ (rho1BackwardCode pow15R (2721 / 100) 3 4 1).2 ≠ 0 := by
+  rw [rho1_values.1]; norm_num
 
 end rho
+
+/-! ## 5. identity of caller-supplied parameter tensors -/
+namespace ParamPack
+
+/-- a leaf tensor was created by the user (`requires_grad_()`); a non-leaf one is the output of a
+    differentiable computation (e.g. of a callable of the geometry) -/
+inductive Kind where | leaf | nonLeaf
+deriving DecidableEq, Repr
+
+/-- a tensor object: Python identity `id`, kind, payload -/
+structure Obj where
+  id : Nat
+  kind : Kind
+  val : Int
+deriving DecidableEq, Repr
+
+/-- `copy.deepcopy(tensor)`: a leaf is cloned into a NEW object (`fresh id ≠ id`) that has no
+    connection to the original's `.grad`; a non-leaf raises
+    "Only Tensors created explicitly by the user support the deepcopy protocol" -/
+def deepcopy (fresh : Nat → Nat) (o : Obj) : Except Unit Obj :=
+  match o.kind with
+  | .leaf => .ok { o with id := fresh o.id }
+  | .nonLeaf => .error ()
+
+def copyAll (fresh : Nat → Nat) : List (String × Obj) → Except Unit (List (String × Obj))
+  | [] => .ok []
+  | (k, o) :: rest =>
+    match deepcopy fresh o with
+    | .error e => .error e
+    | .ok o' => match copyAll fresh rest with
+      | .error e => .error e
+      | .ok rest' => .ok ((k, o') :: rest')
+
+/-- the learned part of `molecule.parameters`: `Pack_Parameters.forward` returns the caller's dict
+    (learned keys untouched, table keys added); `Molecule.__init__` and
+    `Energy._prepare_molecule_inputs` then apply `copy.deepcopy` (`copy = true`, the code) or not
+    (`copy = false`, the repair C.5) -/
+def packed (copy : Bool) (fresh : Nat → Nat) (learned : List (String × Obj)) :
+    Except Unit (List (String × Obj)) :=
+  if copy then copyAll fresh learned else .ok learned
+
+/-- autograd accumulates `∂E/∂θ` into the object that took part in the computation; the caller
+    sees it iff that object is the caller's -/
+def GradReaches (caller used : String × Obj) : Prop := caller.1 = used.1 ∧ used.2.id = caller.2.id
+
+/-- all learned tensors receive their gradient -/
+def AllReach (learned : List (String × Obj)) : Except Unit (List (String × Obj)) → Prop
+  | .error _ => False
+  | .ok used => List.Forall₂ GradReaches learned used
+
+theorem forall₂_refl (l : List (String × Obj)) : List.Forall₂ GradReaches l l := by
+  induction l with
+  | nil => exact .nil
+  | cons a l ih => exact .cons ⟨rfl, rfl⟩ ih
+
+/-- **C07 (5)**: with at least one learned parameter, the gradients reach the caller's tensors
+    iff no copy is interposed. -/
+theorem param_identity_preserved_iff_no_copy (fresh : Nat → Nat) (hfresh : ∀ i, fresh i ≠ i)
+    (learned : List (String × Obj)) (hne : learned ≠ []) (copy : Bool) :
+    AllReach learned (packed copy fresh learned) ↔ copy = false := by
+  cases copy with
+  | false =>
+    have h : AllReach learned (packed false fresh learned) := by
+      simp only [packed, Bool.false_eq_true, if_false, AllReach]
+      exact forall₂_refl learned
+    exact ⟨fun _ => rfl, fun _ => h⟩
+  | true =>
+    simp only [packed, if_true, Bool.true_eq_false, iff_false]
+    cases learned with
+    | nil => exact absurd rfl hne
+    | cons a rest =>
+      obtain ⟨k, o⟩ := a
+      intro h
+      unfold copyAll at h
+      cases hk : o.kind with
+      | nonLeaf => simp [deepcopy, hk, AllReach] at h
+      | leaf =>
+        simp only [deepcopy, hk] at h
+        cases hr : copyAll fresh rest with
+        | error e => simp [hr, AllReach] at h
+        | ok rest' =>
+          simp only [hr, AllReach] at h
+          cases h with
+          | cons h1 _ => exact hfresh o.id h1.2
+
+/-- non-vacuity: a fresh-id function -/
+example : ∀ i : Nat, (· + 1000) i ≠ i := by intro i; simp
+
+/-- the two failure modes of the code (F5): a leaf tensor silently gets no gradient, a non-leaf
+    tensor (parameters computed from the geometry) makes the call raise -/
+example : packed true (· + 1000) [("U_ss", { id := 7, kind := .leaf, val := 3 })]
+    = .ok [("U_ss", { id := 1007, kind := .leaf, val := 3 })] := by decide
+example : packed true (· + 1000) [("U_ss", { id := 7, kind := .nonLeaf, val := 3 })] = .error () := by
+  decide
+example : packed false (· + 1000) [("U_ss", { id := 7, kind := .nonLeaf, val := 3 })]
+    = .ok [("U_ss", { id := 7, kind := .nonLeaf, val := 3 })] := by decide
+
+end ParamPack
 
 end C07
